@@ -23,7 +23,7 @@ use serde_json::json;
 pub static INFO: PropInfo = PropInfo {
     id: "C14",
     run,
-    rule: "cases: every one of the 22 standard gates x every n in 1..=4 (quick) / 1..=5 (thorough) x every injective placement of the gate's qubits into 0..n (enumerated completely) x a parameter set for the 9 parameterised gates {0, pi/2 as `pi/2`, -pi/2, pi as `pi`, 1, -(0.75) as a prefix expression, 150 (quick) / 1500 (thorough) seed-dependent random angles in [-2pi, 2pi]}. Each case is observed through Gate::to_unitary(n) and through Program::to_unitary(n) of the one-gate program and compared entry-wise (1e-9 absolute, after the conditioning filter) with the specification matrix lifted by bit arithmetic. Every case is a distinct (gate, n, placement, parameter) and counts as non-trivial when at least one path returned a matrix.",
+    rule: "cases: every one of the 22 standard gates x every n in 1..=4 (quick) / 1..=5 (thorough) x every injective placement of the gate's qubits into 0..n (enumerated completely) x a parameter set for the 9 parameterised gates {0, pi/2 as `pi/2`, -pi/2, pi as `pi`, 1, -(0.75) as a prefix expression, 600 (quick) / 3000 (thorough) seed-dependent random angles in [-2pi, 2pi]}. Each case is observed through Gate::to_unitary(n) and through Program::to_unitary(n) of the one-gate program and compared entry-wise (1e-9 absolute, after the conditioning filter) with the specification matrix lifted by bit arithmetic. Every case is a distinct (gate, n, placement, parameter) and counts as non-trivial when at least one path returned a matrix.",
     assumptions: &[
         "the specification matrices in model/numeric_gates.rs are those of the Quil specification, section Standard Gates (first listed qubit = most significant bit of the gate's own matrix)",
         "parameters are real constants presented as Number, `pi`, `pi/d` or a prefix minus of a Number",
@@ -78,7 +78,7 @@ fn run(ctx: &mut Ctx) {
     }
     let tier = ctx.tier;
     let n_max = tier.pick(4usize, 5usize);
-    let n_random = tier.pick(150usize, 1500usize);
+    let n_random = tier.pick(600usize, 3000usize);
 
     // parameter set, identical in all shards
     let mut grng = ctx.global_rng(14);
